@@ -585,33 +585,43 @@ impl IceTransportRunner {
         let mut state_rx = inner.state.subscribe();
         let sender = IceSocketWrapper::TcpStream(read, write, peer_addr);
         trace!("TCP read loop started for peer {}", peer_addr);
-        loop {
-            tokio::select! {
-                result = sender.recv_from(&mut buf) => {
-                    match result {
-                        Ok((len, addr)) => {
-                            if len > 0 {
-                                handle_packet(
-                                    &buf[..len],
-                                    addr,
-                                    inner.clone(),
-                                    sender.clone(),
-                                    &mut marshal_buf,
-                                )
-                                .await;
+        'frames: loop {
+            // Reading one RFC 4571 frame (length prefix, then body) is not cancel-safe: a frame
+            // that arrives in several TCP segments is partly consumed while the read is pending.
+            // A state change that does not end the loop must therefore keep polling the SAME
+            // read; dropping it would lose the bytes already taken and with them the framing
+            // of everything that follows on this stream.
+            let result = {
+                let recv = sender.recv_from(&mut buf);
+                tokio::pin!(recv);
+                loop {
+                    tokio::select! {
+                        result = &mut recv => break result,
+                        res = state_rx.changed() => {
+                            if res.is_err() || matches!(*state_rx.borrow(), IceTransportState::Closed | IceTransportState::Failed) {
+                                debug!("TCP read loop stopping (IceTransport Closed or Failed)");
+                                break 'frames;
                             }
-                        }
-                        Err(e) => {
-                            debug!("TCP recv error from {}: {}", peer_addr, e);
-                            break;
                         }
                     }
                 }
-                res = state_rx.changed() => {
-                    if res.is_err() || matches!(*state_rx.borrow(), IceTransportState::Closed | IceTransportState::Failed) {
-                        debug!("TCP read loop stopping (IceTransport Closed or Failed)");
-                        break;
+            };
+            match result {
+                Ok((len, addr)) => {
+                    if len > 0 {
+                        handle_packet(
+                            &buf[..len],
+                            addr,
+                            inner.clone(),
+                            sender.clone(),
+                            &mut marshal_buf,
+                        )
+                        .await;
                     }
+                }
+                Err(e) => {
+                    debug!("TCP recv error from {}: {}", peer_addr, e);
+                    break;
                 }
             }
         }
